@@ -92,6 +92,9 @@ func (p probe) ServeHTTP(w http.ResponseWriter, r *http.Request) (int, error) {
 		if i := strings.IndexByte(op, ':'); i >= 0 {
 			op, arg = op[:i], op[i+1:]
 		}
+		if IOPoint != nil {
+			IOPoint()
+		}
 		switch op {
 		case "readbody":
 			n, _ := strconv.Atoi(arg)
